@@ -27,7 +27,7 @@ from fractions import Fraction
 import numpy as np
 
 PROP = 'C01'
-TARGETS = ['T20', 'T21', 'T8', 'T1', 'T4', 'T12']
+TARGETS = ['T20', 'T21', 'T22', 'T23', 'T24', 'T8', 'T1', 'T1b', 'T4', 'T12']
 LEAN_MODULES = ['HdVerif.Props.C01']
 MODEL_MODULES = ['HdVerif.Model.SegEncode']
 NAMESPACE = 'HdVerif.C01'
